@@ -8,8 +8,9 @@ import (
 
 func TestMain(m *testing.M) { vkit.Main(m) }
 
-// TestEnum_Outcomes is the complete fault enumeration for 0..4 steps.
-func TestEnum_Outcomes(t *testing.T) { PartEnum.RunCases(t, EnumCases(4), true) }
+// TestEnum_Outcomes is the complete fault enumeration for 0..4 steps without a
+// context and for 0..3 steps under every context mode.
+func TestEnum_Outcomes(t *testing.T) { PartEnum.RunCases(t, EnumCases(4, 3), true) }
 
 // TestProp_Random samples longer lists, Combine trees and other panic values.
 func TestProp_Random(t *testing.T) { PartRandom.Run(t) }
